@@ -306,6 +306,16 @@ def _install(T):
             return V.concat([vv, a])
         return V.concat([a.slice((None, k, None)), vv, a.slice((k, None, None))])
 
+    @reg("numpy.resize", doc="numpy.resize(a, n): a repeated cyclically to length n (NOT zero padded)")
+    def np_resize(I, a, n):
+        a = as_array(I, a)
+        if isinstance(n, tuple):
+            (n,) = n
+        n = I.as_index(n)
+        s = a.snap()
+        ln = a.n
+        return Arr.build(n, lambda i: s(V.s_mod(i, ln)), a.dtype)
+
     @reg("numpy.flipud", doc="flipud(a): reversed along the first axis")
     def np_flipud(I, a):
         if isinstance(a, Arr):
